@@ -179,6 +179,8 @@ pub enum Profile {
     Grow,
     /// many L1 entries (several blocks of the L1 table) with general operations (C17, C02)
     TopBlocks,
+    /// small refcount blocks (64 clusters each): a new refblock every few writes, crashy operations (C04, C05)
+    Refblocks,
     /// writes on both sides of L2 slice boundaries, flush / reopen (cold caches), discards and
     /// multi-cluster operations across the boundaries (C18, C17: loads in the middle of an operation)
     SliceCross,
@@ -308,6 +310,15 @@ pub fn gen_case(seed: u64, id: usize, profile: Profile, nops: usize) -> Case {
         c.rb = Some((9, (*rng.pick(&[2usize, 3, 4, 8])) << 9));
         c.l2 = pick_slice(&mut rng, 9, c.cb, false);
     }
+    if profile == Profile::Refblocks {
+        c.cb = 9;
+        c.bsb = 9;
+        c.ro = 6;
+        // 512..1024 clusters: 8..16 refblocks of 64 clusters, 8..16 L2 tables
+        c.size = rng.range(512, 1024) * 512;
+        c.l2 = if rng.chance(1, 2) { None } else { pick_slice(&mut rng, 9, c.cb, true) };
+        c.rb = c.l2;
+    }
     if profile == Profile::TopBlocks {
         // 512-byte clusters: 64 clusters per L2 table; 100..250 L1 entries = 2..4 blocks of 64
         c.cb = 9;
@@ -336,7 +347,8 @@ pub fn gen_case(seed: u64, id: usize, profile: Profile, nops: usize) -> Case {
         c.ro = *rng.pick(&[6u8, 6, 5]);
         let cover: u64 = 64 * ((512 * 8) >> c.ro) * 512;
         c.size = cover - 512 * rng.below(64);
-        c.l2 = pick_slice(&mut rng, 9, c.cb, true);
+        // default (large) caches in half of the cases: dirty slices pile up until the relocation
+        c.l2 = if rng.chance(1, 2) { None } else { pick_slice(&mut rng, 9, c.cb, true) };
         c.rb = c.l2;
     }
     if profile == Profile::CrashySparse || profile == Profile::Sparse {
@@ -592,6 +604,7 @@ pub fn gen_ops(rng: &mut Rng, c: &mut Case, profile: Profile, nops: usize) {
         Profile::CrashySparse => Profile::Crashy,
         Profile::Sparse => Profile::General,
         Profile::TopBlocks => Profile::General,
+        Profile::Refblocks => Profile::Crashy,
         p => p,
     };
     let _ = profile_geom;
@@ -728,15 +741,17 @@ pub fn gen_ops(rng: &mut Rng, c: &mut Case, profile: Profile, nops: usize) {
                     Op::Flush
                 }
             }
-            Profile::CrashySparse | Profile::Sparse | Profile::TopBlocks => unreachable!(),
+            Profile::CrashySparse | Profile::Sparse | Profile::TopBlocks | Profile::Refblocks => unreachable!(),
             Profile::SliceCross => {
                 let span = 64 * cs; // guest bytes per L2 slice
                 let nsl = c.size / span;
                 let b = rng.range(1, nsl - 1) * span; // a slice boundary
                 match r {
                     0..=34 => {
-                        // a cluster just below or just above the boundary
-                        let off = if rng.chance(1, 2) { b - cs * rng.range(1, 2) } else { b + cs * rng.below(2) };
+                        // a cluster just below or just above the boundary; cases with an odd id
+                        // leave the slices below their boundaries empty (for 512-byte clusters a
+                        // slice is a whole L2 table: its L1 entry stays 0)
+                        let off = if c.id % 2 == 0 && rng.chance(1, 2) { b - cs * rng.range(1, 2) } else { b + cs * rng.below(2) };
                         Op::Write { off, len: cs, tok }
                     }
                     35..=59 => {
@@ -744,7 +759,7 @@ pub fn gen_ops(rng: &mut Rng, c: &mut Case, profile: Profile, nops: usize) {
                         Op::Discard { off, len: cs * rng.range(3, 6) }
                     }
                     60..=69 => {
-                        let off = b - cs * rng.range(1, 3);
+                        let off = if c.id % 2 == 0 { b - cs * rng.range(1, 3) } else { b };
                         Op::Write { off, len: cs * rng.range(3, 5), tok }
                     }
                     70..=76 => {
